@@ -61,9 +61,19 @@ fn main() {
             let fam = args.get(2).expect("family").clone();
             let n: usize = args.get(3).and_then(|s| s.parse().ok()).unwrap_or(1000);
             let s = gen::family(&fam, n);
+            let digits = fam == "digits";
             let run = move |s: String| -> Result<usize, String> {
                 let mut b = purr::graph::Builder::new();
                 purr::read::read(&s, &mut b, None).map_err(|e| format!("read: {:?}", e))?;
+                if digits {
+                    // every ring digit of this family opens and closes on the one atom: valid syntax, not a molecule;
+                    // the builder must say so (a Join error), and the string writer must echo the string
+                    match b.build() { Err(purr::graph::Error::Join(0, 0)) => {} other => return Err(format!("build: expected Join(0, 0), got {:?}", other.map(|g| g.len()))) }
+                    let mut w = purr::write::Writer::new();
+                    purr::read::read(&s, &mut w, None).map_err(|e| format!("read into writer: {:?}", e))?;
+                    if w.write() != s { return Err("writer does not echo the digits family".to_string()) }
+                    return Ok(1)
+                }
                 let g = b.build().map_err(|e| format!("build: {:?}", e))?;
                 let atoms = g.len();
                 let mut w = purr::write::Writer::new();
